@@ -40,7 +40,7 @@ def lobatto(n):
     return x, w
 
 
-def integrate_adaptive_1d(logp, a, b, tol=1e-7, order=10, init_panels=200, max_rounds=48, dtype=None):
+def integrate_adaptive_1d(logp, a, b, tol=1e-7, order=10, init_panels=200, max_rounds=48, dtype=None, extra_edges=()):
     """Adaptive composite quadrature in one dimension for integrands with kinks and jumps.  A panel is
     accepted when (i) Gauss-Legendre on the panel and on its two halves agree and (ii) Gauss-Legendre and
     Gauss-Lobatto on the panel agree - the Lobatto rule samples the end points, so a jump hiding between the
@@ -61,6 +61,9 @@ def integrate_adaptive_1d(logp, a, b, tol=1e-7, order=10, init_panels=200, max_r
         return (np.exp(lp) * weights[None, :]).sum(1) * h
 
     edges = np.linspace(a, b, init_panels + 1)
+    if len(extra_edges):
+        ee = np.array([e for e in extra_edges if a < e < b])
+        edges = np.unique(np.concatenate([edges, ee]))
     lo, hi = edges[:-1], edges[1:]
     whole = rule(lo, hi, xs, ws)
     total = 0.0
